@@ -67,7 +67,7 @@ def _twins(tier):
         g = ref2d.stem_graph(stems)
         if not any(g[v] for v in g):
             continue
-        for kind in ("letters", "longer"):
+        for kind in ("letters", "longer", "exotic"):
             yield {**c, "twin": kind, "depth": 2 if q else 3, "ops": ops}
 
 
@@ -204,7 +204,12 @@ def run_case(case):
     refs0 = [root_ref]
     if case.get("twin"):
         # a second, independent object in the same process: the same pairing under other letters, and under one more (unpaired) nucleotide
-        tw = (n0, seq_of(case, 1), root_pairs) if case["twin"] == "letters" else (n0 + 1, seq_of(dict(n=n0 + 1), 2), root_pairs)
+        if case["twin"] == "letters":
+            tw = (n0, seq_of(case, 1), root_pairs)
+        elif case["twin"] == "exotic":
+            tw = (n0, enum2d.exotic(dict(n=n0))["seq"], root_pairs)  # letters a BPSEQ may carry besides ACGU (X, P, I, ?, n, N, t, m)
+        else:
+            tw = (n0 + 1, seq_of(dict(n=n0 + 1), 2), root_pairs)
         g0.append(fresh(*tw))
         refs0.append(tw)
     seen = {canon(g0)}
